@@ -968,6 +968,21 @@ impl Frame {
     }
 }
 
+#[cfg(image_webp_verif)]
+impl Frame {
+    /// Verification hook: a frame made of caller-supplied planes.
+    pub(crate) fn verif_from_planes(width: u16, height: u16, y: &[u8], u: &[u8], v: &[u8]) -> Frame {
+        Frame {
+            width,
+            height,
+            ybuf: y.to_vec(),
+            ubuf: u.to_vec(),
+            vbuf: v.to_vec(),
+            ..Frame::default()
+        }
+    }
+}
+
 /// `_mm_mulhi_epu16` emulation used in `Frame::fill_rgb` and `Frame::fill_rgba`.
 fn mulhi(v: u8, coeff: u16) -> i32 {
     ((u32::from(v) * u32::from(coeff)) >> 8) as i32
